@@ -649,7 +649,8 @@ KNOWN_CLASSES: dict[str, dict[str, Any]] = {
     "vcs-ignored-in-git-subdirectory": _base(
         {"demo/__init__.py": "", "demo/secret.txt": "s\n", ".gitignore": "*.txt\n"}, git={"tracked": False, "subdir": "pkgs/demo"}),
     "vcs-ignored-non-ascii-name": _base(
-        {"demo/__init__.py": "", "demo/donn\u00e9es.txt": "s\n", ".gitignore": "*.txt\n"}, git={"tracked": False}),
+        {"demo/__init__.py": "", "demo/donn\u00e9es.txt": "s\n", "demo/cle\u0301.txt": "decomposed (NFD) name\n", ".gitignore": "*.txt\n"},
+        git={"tracked": False}),
     "legal-file-bypasses-exclude": _base(
         {"demo/__init__.py": "", "LICENSE": "l\n"}, exclude=["LICENSE"]),
 }
